@@ -207,3 +207,17 @@ CHECKS["C15"] = {
     "note": TRUST + " The tree lives in a scratch directory created and removed by the check; file I/O executor jobs run inline and loop.sendfile is unavailable "
             "(aiohttp's fallback path); a malformed Range may be ignored or refused; POSIX only.",
 }
+
+CHECKS["C17"] = {
+    "engine": "SCHED",
+    "design_ref": "§3 C17",
+    "technique": "exhaustive redirect-chain enumeration through a real ClientSession against recording scripted origins, judged by a secret-confinement model",
+    "text": "Every redirect chain of 1 hop (all 16 origin pairs x 5 statuses x Location forms x 4 methods x body kinds), 2 hops (all 64 origin triples x status pairs x "
+            "methods/bodies; every quadruple in thorough), chains where credentials enter through a Location header or the caller's URL, non-HTTP / unparsable "
+            "targets and max_redirects 1..3 is followed by a real ClientSession with a real CookieJar over the in-memory connector; each scripted origin records "
+            "the requests it receives through the independent RFC 9112 reader.  Judged per hop: caller Authorization / Cookie / Proxy-Authorization / cookies= only "
+            "while the whole chain stayed on the first origin (no resurrection on A->B->A), Location credentials only on their own origin, jar cookies re-selected "
+            "for the hop's host, method and body per the documented table, request count vs max_redirects, refusal of non-HTTP targets, history order, every "
+            "connection released.",
+    "note": TRUST + " A redirect chain is sequential, so the default schedule is the only schedule; TLS is not modelled (an https origin is a distinct connection key).",
+}
